@@ -464,6 +464,19 @@ class BoolTracker:
             elif isinstance(st, ast.AugAssign) and isinstance(st.target, ast.Name):
                 self.version[st.target.id] = self.version.get(st.target.id, 0) + 1
                 self.trees.pop(st.target.id, None)
+            elif isinstance(st, ast.For) and isinstance(st.iter, (ast.Tuple, ast.List)) and isinstance(st.target, ast.Name) and not st.orelse and \
+                    len(st.iter.elts) <= 16 and not any(isinstance(x, (ast.Break, ast.Continue)) for b in st.body for x in ast.walk(b)):
+                # a loop over a literal tuple is its unrolling: the target names each element in turn
+                from .front import clone
+
+                class _S(ast.NodeTransformer):
+                    def __init__(self, name, val):
+                        self.name, self.val = name, val
+
+                    def visit_Name(self, n):
+                        return clone(self.val) if n.id == self.name and isinstance(n.ctx, ast.Load) else n
+                for e in st.iter.elts:
+                    self.run([_S(st.target.id, e).visit(clone(b)) for b in st.body])
             elif isinstance(st, (ast.For, ast.While)):
                 for x in ast.walk(st.target) if isinstance(st, ast.For) else []:
                     if isinstance(x, ast.Name):
@@ -488,15 +501,37 @@ def tree_atoms(tree, out=None):
 
 
 # ------------------------------------------------------------------------------------------------
-def path_condition(node, root, tracker=None):
+def _always_exits(stmts):
+    """does the statement list always leave the enclosing block (return / raise / break / continue on every path)?"""
+    for st in stmts:
+        if isinstance(st, (ast.Return, ast.Raise, ast.Break, ast.Continue)):
+            return True
+        if isinstance(st, ast.If) and st.orelse and _always_exits(st.body) and _always_exits(st.orelse):
+            return True
+    return False
+
+
+def path_condition(node, root, tracker=None, guards=False):
     """Boolean tree of the condition under which ``node`` executes inside ``root``: the conjunction, over the enclosing if statements
     and conditional expressions, of the test (node in the body) or its negation (node in the else part).  Loops and try blocks do not
-    contribute.  Use with ``equivalent`` to compare guards whatever their syntactic arrangement (swapped branches, De Morgan, elif)."""
+    contribute.  Use with ``equivalent`` to compare guards whatever their syntactic arrangement (swapped branches, De Morgan, elif).
+    With ``guards`` the guard clauses that precede the node in its own blocks count too: after `if c: return ...` the rest of the block
+    runs under `not c` (the early-return arrangement of an if/else)."""
     bt = tracker or BoolTracker()
     conj = []
     child = node
     p = getattr(node, "_parent", None)
     while p is not None and child is not root:
+        if guards and isinstance(child, ast.stmt):
+            for field in ("body", "orelse", "finalbody"):
+                blk = getattr(p, field, None)
+                if isinstance(blk, list) and any(child is b for b in blk):
+                    for prev in blk[:[i for i, b in enumerate(blk) if b is child][0]]:
+                        if isinstance(prev, ast.If):
+                            if _always_exits(prev.body) and not _always_exits(prev.orelse):
+                                conj.append(("not", [bt.tree(prev.test)]))
+                            elif prev.orelse and _always_exits(prev.orelse) and not _always_exits(prev.body):
+                                conj.append(bt.tree(prev.test))
         if isinstance(p, ast.If):
             if any(child is b for b in p.body):
                 conj.append(bt.tree(p.test))
